@@ -75,7 +75,7 @@ def build(kind='rel', quiet=True):
         return {
             'plworker': os.path.join(bindir, 'plworker'),
             'vtcli': os.path.join(bindir, 'vtcli'),
-            'coreprobe': os.path.join(bindir, 'coreprobe'),
+            'chunkread': os.path.join(bindir, 'chunkread'),
             'atomstress': os.path.join(bindir, 'atomstress'),
             'build_s': dt,
         }
